@@ -34,6 +34,20 @@ def shards(tier, prop):
     if prop in ('C12', 'C13', 'C19', 'C02', 'C03', 'C08'):
         out = timing_family(props, tier)
         out.append(G('delay', [(0, 2), (1, 2), (1, 2), (0, 2), (0, 2), (0, 2), (0, 2), (0, 1)], props, alg='batch1'))
+    elif prop == 'C17':
+        RS = [(0, 2), (0, 2), (0, 2), (0, 2), (0, 2), (0, 2), (0, 2), (0, 2)]
+        out.append(G('static', RS, props, alg='dynamic'))
+        out.append(G('static', RS, props, alg='dynamic', edge=False, g2=2))
+        out.append(G('static', RS, props, alg='dynamic', machines=[10, 20, 20], d1=2, d2=1))
+    elif prop == 'C01':
+        for alg in ALG3:
+            out.append(G('two', R_TWO, props, alg=alg))
+        RS = [(0, 2), (0, 2), (0, 2), (0, 2), (0, 2), (0, 2), (0, 2), (0, 2)]
+        out.append(G('static', RS, props, alg='dynamic'))
+        out.append(G('static', RS, props, alg='greedy'))
+        for honest in (True, False):
+            out.append(G('adv', [(0, 1), (1, 1), (0, 2), (-1, 2), (-1, 2), (-1, 2), (0, 2), (0, 0)], props, honest=honest))
+        out.append(G('delay', [(0, 2), (1, 2), (1, 2), (0, 2), (0, 2), (0, 2), (0, 2), (0, 1)], props, alg='queue'))
     elif prop == 'C09':
         for alg in ('batch1', 'batch2'):
             out.append(G('two', R_TWO, props, alg=alg))
